@@ -356,22 +356,46 @@ class LeanDriver:
 
     def __init__(self, script, args=()):
         self.script = script
+        self.args = tuple(args)
+        self._start()
+
+    def _start(self):
         self.p = subprocess.Popen(
-            ["lake", "env", "lean", "--run", str(script), *args], cwd=LEAN,
+            ["lake", "env", "lean", "--run", str(self.script), *self.args], cwd=LEAN,
             stdin=subprocess.PIPE, stdout=subprocess.PIPE, stderr=subprocess.PIPE, text=True, bufsize=1,
         )
 
-    def ask(self, line: str) -> str:
-        assert "\n" not in line
+    def _ask_once(self, line):
         try:
             self.p.stdin.write(line + "\n")
             self.p.stdin.flush()
-            out = self.p.stdout.readline()
-        except BrokenPipeError:
-            out = ""
+            return self.p.stdout.readline()
+        except (BrokenPipeError, OSError):
+            return ""
+
+    def ask(self, line: str) -> str:
+        """every request line is self-contained (the drivers keep no state between lines), so a driver that
+        died (killed from outside, transient build race) is restarted and the request repeated"""
+        assert "\n" not in line
+        out = self._ask_once(line)
+        tries = 0
+        while not out and tries < 2:
+            tries += 1
+            try:
+                err = self.p.stderr.read()
+            except Exception:
+                err = ""
+            rc = self.p.poll()
+            try:
+                self.p.kill()
+            except Exception:
+                pass
+            last = f"rc={rc} stderr={err[-1500:]}"
+            time.sleep(2 * tries)
+            self._start()
+            out = self._ask_once(line)
         if not out:
-            err = self.p.stderr.read()
-            raise InfraError(f"lean driver {self.script} died: {err[-2000:]}")
+            raise InfraError(f"lean driver {self.script} died repeatedly on one request ({len(line)} bytes): {last}")
         return out.rstrip("\n")
 
     def close(self):
